@@ -129,6 +129,7 @@ class Facts:
         self.adts = {}     # id -> adt
         self.impls = []
         self.traits = {}
+        self.sigs = {}     # id -> declared signature (unexpanded type aliases)
         self.crates = {}
         for f in sorted(glob.glob(os.path.join(self.dir, "*.jsonl"))):
             base = os.path.basename(f)
@@ -158,6 +159,8 @@ class Facts:
                         self.impls.append(r)
                     elif k == "trait":
                         self.traits[r["id"]] = r
+                    elif k == "sig":
+                        self.sigs[r["id"]] = r
         self.by_name = {}
         for i, r in self.fns.items():
             self.by_name.setdefault(r["name"], []).append(i)
